@@ -433,6 +433,21 @@ def run_jointempo(case):
         if flags:
             out.append(["flags"] + flags)
         return out
+    elif kind in ("padded_index", "padded_tag"):
+        # a voice that is SHORTER than the first operand and carries a tempo: it is padded with rest up to the first
+        # operand's duration, the second operand's voice (content and tempo) follows exactly there
+        short = max(1, da // 2)
+        a = P_([S_([C_(da / TICK)], tag="u"), S_([C_(short / TICK)], tempo=ta, tag="v")])
+        b = P_([S_([C_(db / TICK)], tag="u"), S_([C_(db / TICK)], tempo=tb, tag="v")])
+        if kind == "padded_index":
+            a.concatenate_by_index(b)
+        else:
+            a.concatenate_by_tag(b)
+        rt = a[1].tempo
+        if tempo_points(b[1].tempo) != tb_before:
+            flags.append("second-operand-tempo-changed")
+        if sum(ticks(x.duration) for x in a[1]) != da + db or ticks(a[1][-1].duration) != db:
+            flags.append("content-wrong")
     elif kind in ("unmatched_index", "unmatched_tag"):
         # a voice that only the second operand has: it is new in the result, behind a padding rest of the first operand's
         # duration; its tempo has to be the second operand's, shifted by that duration (known finding F9)
@@ -502,7 +517,8 @@ def run_metrize(case):
     src = build_ttree(case[1])
     before = full_snap(src)
     flags = []
-    r = cc.EventToMetrizedEvent().convert(src)
+    conv = cc.EventToMetrizedEvent()             # ONE converter object for all conversions of this case
+    r = conv.convert(src)
     if full_snap(src) != before:
         flags.append("input-changed")
     if shape_of(r) != shape_of(src):
@@ -513,7 +529,7 @@ def run_metrize(case):
     ret = inplace.metrize()
     if leaf_durs(inplace) != leaf_durs(r) or not neutral(inplace) or ret is not inplace:
         flags.append("inplace-differs")
-    again = cc.EventToMetrizedEvent().convert(r)
+    again = conv.convert(r)
     if leaf_durs(again) != leaf_durs(r) or not neutral(again):
         flags.append("not-idempotent")
     # second life of the same source: its constant tempi are edited in place (bpm doubled, a supported edit - see
@@ -538,7 +554,7 @@ def run_metrize(case):
                 walk(c, factor)
 
         walk(src, 1)
-        r2 = cc.EventToMetrizedEvent().convert(src)
+        r2 = conv.convert(src)
         for f, d1, d2 in zip(edited, leaf_durs(r), leaf_durs(r2)):
             if f is not None and abs(fl(d2) * f - fl(d1)) > 1e-9 * max(1.0, fl(d1)) + 4e-9:
                 flags.append("stale-after-editing-a-tempo-in-place")
